@@ -61,6 +61,8 @@ class Ctx:
     def explore_many(self, jobs, *, cap=2_000_000, time_limit=None, selftest=True, workers=None):
         """jobs: list of (harness, deviation bound); all explored exhaustively, in parallel."""
         jobs = list(jobs)
+        if time_limit is None and os.environ.get("WDMC_TIME_LIMIT"):
+            time_limit = float(os.environ["WDMC_TIME_LIMIT"])    # per exploration call; a cut run is reported as capped
         for h, _ in jobs:
             self.harnesses[h.name] = h
         sts, errors = ex.explore_many(jobs, workers=workers or self.workers, cap=cap, seed=self.seed,
